@@ -271,6 +271,13 @@ def handlers(ctx):
     eb = hb.orelse
     repl = [s for s in ast.walk(ast.Module(body=eb, type_ignores=[])) if isinstance(s, ast.Assign) and any(isinstance(t, ast.Subscript) and dotted(t.value) == "context._buffer_stack" and isinstance(t.slice, ast.Slice) and t.slice.lower is None and t.slice.upper is None for t in s.targets)]
     rc = [c for c in ast.walk(ast.Module(body=eb, type_ignores=[])) if isinstance(c, ast.Call) and (dotted(c.func) or "").endswith(".render_context")]
+    # the replacement buffer is configured from the error template that is rendered into it
+    ets = {src(c.func.value) for c in rc}
+    bufs = [c for r_ in repl for c in ast.walk(r_.value) if isinstance(c, ast.Call) and (dotted(c.func) or "").endswith("FastEncodingBuffer") and (c.args or c.keywords)]
+    for b_ in bufs:
+        vals = [src(a_) for a_ in b_.args] + [src(k_.value) for k_ in b_.keywords]
+        owners = {v_.rsplit(".", 1)[0] for v_ in vals if "." in v_}
+        ctx.check(len(ets) == 1 and owners == ets, "render_error.buffer-config", db.where(b_), "the buffer the error page is rendered into is configured from %s, the page is rendered by %s: the page's own encoding_errors ('htmlentityreplace') is not in force and an unencodable character in the error message makes render() raise instead of showing the page" % (sorted(owners), sorted(ets)), "encoding and errors of the error template")
     g = cfgmod.function_cfg(re_)
     rcn = [x for c in rc for x in stmt_nodes(g, c)]
     rpn = [x for r in repl for x in g.nodes_of(r)]
